@@ -67,22 +67,28 @@ Proof.
 Qed.
 
 (* ---- what _del_tokens leaves --------------------------------------------------------------------- *)
-Lemma del_res_items : forall A M B, map item_of (del_res A M B) = map item_of (A ++ B).
-Proof. intros [|a A] [|m0 M] [|b0 B]; reflexivity. Qed.
-
-Lemma del_res_edit : forall A M B, Edit (A ++ M ++ B) (del_res A M B) M [].
+Lemma del_res_items : forall A M B post, map item_of (del_res A M B post) = map item_of (A ++ B).
 Proof.
-  intros A M B. destruct A as [|a A].
+  intros [|a A] [|m0 M] [|b0 B] post; try reflexivity.
+  cbn [del_res]. destruct (keep_gap _ _); [|reflexivity]. rewrite !map_app. reflexivity.
+Qed.
+
+Lemma del_res_edit : forall A M B post, Edit (A ++ M ++ B) (del_res A M B post) M [].
+Proof.
+  intros A M B post. destruct A as [|a A].
   - destruct M as [|m0 M']; [exists [], B, [], B; repeat split; apply tail_eq_refl|].
     destruct B as [|b0 B']; [exists [], [], [], []; now repeat split|].
     exists [], (b0 :: B'), [], (mkcell (c_gap m0) (c_body b0) :: B'). now repeat split.
-  - destruct M; exists (a :: A), B, [], B; repeat split; apply tail_eq_refl.
+  - rewrite del_res_front.
+    assert (Gen : Edit ((a :: A) ++ M ++ B) ((a :: A) ++ B) M []) by (exists (a :: A), B, [], B; repeat split; apply tail_eq_refl).
+    destruct M as [|m0 M']; [exact Gen|]. destruct B as [|b0 B']; [exact Gen|]. destruct (keep_gap _ _); [|exact Gen].
+    exists (a :: A), (b0 :: B'), [], (mkcell (c_gap m0 ++ c_gap b0) (c_body b0) :: B'). now repeat split.
 Qed.
 
 Lemma del_res_wf : forall ph pre pht A M B post,
   WF ph pre pht (A ++ M ++ B) post ->
-  WF ph pre pht (del_res A M B) post /\
-  (forall x, In x (ids (lay pre pht (del_res A M B) post)) -> In x (ids (lay pre pht (A ++ M ++ B) post))).
+  WF ph pre pht (del_res A M B post) post /\
+  (forall x, In x (ids (lay pre pht (del_res A M B post) post)) -> In x (ids (lay pre pht (A ++ M ++ B) post))).
 Proof.
   intros ph pre pht A M B post (Hph & Hnd & Hok).
   apply Forall_app_inv in Hok. destruct Hok as [HokA Hok]. apply Forall_app_inv in Hok. destruct Hok as [HokM HokB].
@@ -96,7 +102,25 @@ Proof.
     - split; [exact Hph|]. split; [|apply Forall_app; now split].
       rewrite E2. rewrite E1 in Hnd. eapply nodup_ids_cut. exact Hnd.
     - intros x. rewrite E1, E2. apply in_ids_cut. }
-  destruct A as [|a A]; [|replace (del_res (a :: A) M B) with ((a :: A) ++ B) by (now destruct M); exact Gen].
+  destruct A as [|a A].
+  2:{ rewrite del_res_front. destruct M as [|m0 M']; [exact Gen|]. destruct B as [|b0 B']; [exact Gen|].
+      destruct (keep_gap _ _); [|exact Gen].
+      assert (E1 : lay pre pht ((a :: A) ++ (m0 :: M') ++ b0 :: B') post
+              = (pre ++ pht :: flat (a :: A) ++ c_gap m0) ++ (c_body m0 ++ flat M') ++ (c_gap b0 ++ c_body b0 ++ flat B' ++ post)).
+      { unfold lay. rewrite !flat_app, !flat_cons. repeat rewrite <- app_assoc. cbn [app].
+        repeat rewrite <- app_assoc. reflexivity. }
+      assert (E2 : lay pre pht ((a :: A) ++ mkcell (c_gap m0 ++ c_gap b0) (c_body b0) :: B') post
+              = (pre ++ pht :: flat (a :: A) ++ c_gap m0) ++ (c_gap b0 ++ c_body b0 ++ flat B' ++ post)).
+      { unfold lay. rewrite !flat_app, !flat_cons. cbn [c_gap c_body]. repeat rewrite <- app_assoc. cbn [app].
+        repeat rewrite <- app_assoc. reflexivity. }
+      pose proof (Forall_inv HokM) as [_ Hg0]. pose proof (Forall_inv HokB) as [Hb0 Hgb0].
+      split.
+      - split; [exact Hph|]. split.
+        + rewrite E2. rewrite E1 in Hnd. eapply nodup_ids_cut. exact Hnd.
+        + apply Forall_app. split; [exact HokA|].
+          constructor; [|exact (Forall_inv_tail HokB)]. split; [exact Hb0|].
+          cbn [c_gap]. unfold all_sep in *. rewrite forallb_app, Hg0, Hgb0. reflexivity.
+      - intros x. rewrite E1, E2. apply in_ids_cut. }
   destruct M as [|m0 M']; [exact Gen|]. destruct B as [|b0 B']; [exact Gen|].
   cbn [del_res app] in *.
   assert (E1 : lay pre pht (m0 :: M' ++ b0 :: B') post
@@ -307,8 +331,8 @@ Theorem pop_layout : forall pre pht cs post i s' dl r,
   pop ph (mkst (lay pre pht cs post) (map item_of cs)) i = (s', dl, Ok r) ->
   exists A c B, cs = A ++ c :: B /\ r = c_body c /\ dl = [] /\
     (zlen A = i \/ zlen A = i + zlen cs) /\
-    s' = mkst (lay pre pht (del_res A [c] B) post) (map item_of (del_res A [c] B)) /\
-    WF ph pre pht (del_res A [c] B) post /\ Edit cs (del_res A [c] B) [c] [].
+    s' = mkst (lay pre pht (del_res A [c] B post) post) (map item_of (del_res A [c] B post)) /\
+    WF ph pre pht (del_res A [c] B post) post /\ Edit cs (del_res A [c] B post) [c] [].
 Proof.
   intros pre pht cs post i s' dl r Hwf H. unfold pop in H. cbn [s_doc s_items] in H.
   destruct (list_get_int (map item_of cs) i) as [it|e] eqn:Eg; [|discriminate].
